@@ -87,6 +87,7 @@ func v3ScoreCases(st *SpecTables) []scoreCase {
 		}
 		return scoreCase{vector: v, level: level, terms: []string{kb, kt, ke}, tok: tok, ver: ver, parts: [2]string{bp, tp}}
 	}
+	rot := 0
 	for _, ver := range []string{"3.0", "3.1"} {
 		for _, av := range codes("AV") {
 			for _, ac := range codes("AC") {
@@ -97,11 +98,17 @@ func v3ScoreCases(st *SpecTables) []scoreCase {
 								for _, i := range codes("I") {
 									for _, a := range codes("A") {
 										cases = append(cases, mk(ver, map[string]string{"AV": av, "AC": ac, "PR": pr, "UI": ui, "S": s, "C": c, "I": i, "A": a}, "environmental"))
-										// the same base vector with one temporal combination (rotating through all of them), no environmental metric
+										// the same base vector with four temporal combinations (evenly spaced, rotating through all of them; a base
+										// score is shared by many base vectors, so the pairs (base score, E/RL/RC) are covered densely), no
+										// environmental metric
 										es, rls, rcs := codes("E"), codes("RL"), codes("RC")
-										n := len(cases)
-										cases = append(cases, mk(ver, map[string]string{"AV": av, "AC": ac, "PR": pr, "UI": ui, "S": s, "C": c, "I": i, "A": a,
-											"E": es[n%len(es)], "RL": rls[(n/len(es))%len(rls)], "RC": rcs[(n/(len(es)*len(rls)))%len(rcs)]}, "environmental"))
+										all := len(es) * len(rls) * len(rcs)
+										for q := 0; q < 4; q++ {
+											n := (rot + q*all/4) % all
+											cases = append(cases, mk(ver, map[string]string{"AV": av, "AC": ac, "PR": pr, "UI": ui, "S": s, "C": c, "I": i, "A": a,
+												"E": es[n%len(es)], "RL": rls[(n/len(es))%len(rls)], "RC": rcs[(n/(len(es)*len(rls)))%len(rcs)]}, "environmental"))
+										}
+										rot++
 									}
 								}
 							}
@@ -169,7 +176,7 @@ func onGrid(x float64, lo, hi int) (int, bool) {
 }
 
 func scoreProbeRun(u *Universe, st *SpecTables, repo, aspect string) (string, bool) {
-	head := "score probe on the real code, aspect '" + aspect + "' (v3: all 5,184 base vectors, each also with one of the 100 temporal combinations in rotation, and 3,000 seeded random temporal/environmental vectors decoded by the Environmental decoder"
+	head := "score probe on the real code, aspect '" + aspect + "' (v3: all 5,184 base vectors, each also with four of the 100 temporal combinations in rotation, and 3,000 seeded random temporal/environmental vectors decoded by the Environmental decoder"
 	switch aspect {
 	case "value":
 		head += "; oracle: the specification prelude evaluated by z3 on the written codes; base, temporal and environmental score are compared):\n"
